@@ -41,8 +41,13 @@ def pgs(iv, full=True):
     return out
 
 
+POSITIONS = [-40, -3, -2, -1, 0, 1, 2, 3, 7, 40]
+
+
 def jobs(tier):
     js = [('pairs', xi, tier) for xi in range(len(intervals(7)))]
+    js += [('multi', k) for k in range(len(intervals(6)))]
+    js += [('position', pi) for pi in range(len(POSITIONS))]
     if tier == 'quick':
         iv4 = intervals(4)
         js += [('triples4', a, b) for a in range(len(iv4)) for b in range(len(iv4))]
@@ -81,6 +86,121 @@ def mk(name, prec, inner, iv, pg):
     T.__name__ = name
     T.__qualname__ = name
     return T
+
+
+def mk_multi(name, prec, matches):
+    """a token type whose find() reports several matches, in the given (not necessarily ascending) order"""
+    from mistletoe.span_token import SpanToken
+    from mistletoe.core_tokens import MatchObj
+
+    class M(SpanToken):
+        precedence = prec
+        parse_inner = False
+        parse_group = 1
+
+        @classmethod
+        def find(cls, string):
+            if string != TEXT:
+                return []
+            return [MatchObj(s_, e_, (s_, e_, string[s_:e_])) for s_, e_ in matches]
+
+        def __init__(self, m):
+            self.iv = (m.start(), m.end())
+            self.pg = (m.start(1), m.end(1))
+            self.content = m.group(1)
+    M.__name__ = name
+    M.__qualname__ = name
+    return M
+
+
+def run_multi(r, k):
+    """find() may report its matches in any order: two or three pairwise disjoint matches of one type (every order of
+    reporting), alone and next to a second type with one match; a candidate that conflicts with nothing must come out as a
+    token, and the result must tile the source"""
+    ivs = intervals(6)
+    a = ivs[k]
+    for b in ivs:
+        if not (a[1] <= b[0]):
+            continue
+        sets = [(a, b)] + [(a, b, c) for c in ivs if b[1] <= c[0]]
+        for ms in sets:
+            for order in itertools.permutations(ms):
+                for other in [None] + ivs:
+                    classes = [mk_multi('M', 5, order)]
+                    if other is not None:
+                        classes.append(mk('Y', 5, False, other, other))
+                    names = [c.__name__ for c in classes]
+                    case = dict(multi=True, matches_in_reported_order=[list(x) for x in order], other=list(other) if other else None)
+                    r.states += 1
+                    r.transitions += 1
+                    try:
+                        inside, lifecycle_ok, order_ok = parse_with(classes)
+                    except Exception as e:
+                        r.fail(case, core.exc_sig(e), repr(e)[:200])
+                        continue
+                    r.validated += 1
+                    p = tiling_problem(list(inside), 0, len(TEXT), names)
+                    if p:
+                        r.fail(case, 'tiling:' + p, observed=repr(shape(list(inside), names)))
+                        continue
+                    got = sorted(t.iv for t in inside if type(t).__name__ == 'M')
+                    must = sorted(m for m in ms if other is None or m[1] <= other[0] or other[1] <= m[0])
+                    if any(m not in got for m in must):
+                        r.fail(case, 'conflict-free-match-dropped', expected=[list(m) for m in must], observed=[list(m) for m in got])
+                    r.outcome('multi:%d' % len(got))
+    r.sample(dict(kind='one type, several matches reported in any order', first=list(a)), 1)
+
+
+def run_position(r, pos):
+    """add_token(cls, position) inserts like list.insert (negative positions count from the end); the type that is earlier in
+    the list wins a tie"""
+    from mistletoe import Document, span_token
+    from mistletoe.html_renderer import HtmlRenderer
+    for xi in intervals(4):
+        for yi in intervals(4):
+            for px, py in ((5, 5), (4, 6), (6, 4)):
+                X = mk('X', px, False, xi, xi)
+                Y = mk('Y', py, False, yi, yi)
+                case = dict(position=pos, tokens=[dict(name='X', interval=list(xi), precedence=px), dict(name='Y', interval=list(yi), precedence=py)])
+                core.fresh()
+                r.states += 1
+                r.transitions += 1
+
+                class R(HtmlRenderer):
+                    def __init__(self):
+                        super().__init__(X, process_html_tokens=False)
+
+                    def render_x(self, t):
+                        return ''
+                try:
+                    with R():
+                        before = [t.__name__ for t in span_token._token_types]
+                        span_token.add_token(Y, pos)
+                        after = [t.__name__ for t in span_token._token_types]
+                        # a type put behind the fallback token (which tokenize() splits off) is outside the rule
+                        inside = Document(TEXT).children[0].children if after[-1] == 'RawText' else None
+                except Exception as e:
+                    r.fail(case, core.exc_sig(e), repr(e)[:200])
+                    continue
+                want_order = list(before)
+                want_order.insert(pos, 'Y')
+                r.validated += 1
+                if after != want_order:
+                    r.fail(case, 'add_token-position-not-list-insert', expected=want_order, observed=after)
+                    continue
+                if 'RawText' != after[-1]:
+                    continue        # the type was put behind the fallback token (which is split off): outside the rule
+                xs = dict(name='X', iv=xi, pg=xi, prec=px, inner=False)
+                ys = dict(name='Y', iv=yi, pg=yi, prec=py, inner=False)
+                first, second = (xs, ys) if after.index('X') < after.index('Y') else (ys, xs)
+                want = pair_model(first, second)
+                got = observe_pair(shape(list(inside), ['X', 'Y']))
+                r.validated += 1
+                r.outcome('position:' + got[0])
+                if got != want:
+                    r.fail(case, 'pair-resolution-differs-from-rule:%s->%s' % (want[0], got[0]), kf=classify_pair(first, second, want, got),
+                           expected=list(want), observed=list(got))
+    r.sample(dict(kind='add_token position', position=pos), 1)
 
 
 def parse_with(classes):
@@ -251,6 +371,12 @@ def judge_nested_pair(r, specs, sh, case):
 def run_job(job):
     r = core.Result()
     kind = job[0]
+    if kind == 'multi':
+        run_multi(r, job[1])
+        return r
+    if kind == 'position':
+        run_position(r, POSITIONS[job[1]])
+        return r
     if kind == 'pairs':
         precs2 = PRECS[job[2]]
         ivs = intervals(7)
@@ -293,6 +419,25 @@ def run_job(job):
 
 
 def replay(case):
+    if case.get('multi') or 'position' in case:
+        r = core.Result()
+        if case.get('multi'):
+            first = tuple(sorted(tuple(x) for x in case['matches_in_reported_order'])[0])
+            run_multi(r, intervals(6).index(first))
+            want = [case['matches_in_reported_order'], case['other']]
+            key = lambda f: [f['case']['matches_in_reported_order'], f['case']['other']]
+        else:
+            run_position(r, case['position'])
+            want = case['tokens']
+            key = lambda f: f['case']['tokens']
+        for (kf, sig), (n, fl) in r.failures.items():
+            for f in fl:
+                if key(f) == want:
+                    return f
+        for (kf, sig), (n, fl) in r.failures.items():
+            if not kf:
+                return fl[0]
+        return None
     specs = [dict(name=t['name'], iv=tuple(t['interval']), pg=tuple(t['parse_group']), prec=t['precedence'], inner=t['parse_inner'])
              for t in case['tokens']]
     r = core.Result()
